@@ -32,7 +32,7 @@ func Begin(seed uint64, startUS int64, cfg Config) *Sched {
 //
 //go:norace
 func BeginInline(seed uint64, startUS int64) *Sched {
-	s := Begin(seed, startUS, Config{Strategy: StratSeq})
+	s := Begin(seed, startUS, Config{Strategy: StratSeq, MaxSteps: 1 << 60})
 	id := s.AddTask("main")
 	s.prepare()
 	s.cur = s.tasks[id]
